@@ -65,6 +65,12 @@ SUITES["chain"] = dict(
     batches={"quick": 4, "thorough": 16}, timeout={"quick": 300, "thorough": 3000},
 )
 
+SUITES["config"] = dict(
+    test="TestConfig", coq_module="Cases.ConfigCase", case_type="cf_case", eval="eval_cf_case", needs_binary=True,
+    cols=["diff", "mon_spec", "mon_docs", "mon_starts", "nt_c18"],
+    batches={"quick": 8, "thorough": 16}, timeout={"quick": 400, "thorough": 3000},
+)
+
 PROPS = {
     "C09": dict(
         props_file="Props/C09.v",
@@ -364,6 +370,27 @@ PROPS["C17"] = dict(
     level_note="Trusted: Coq kernel, harness, Model/Chain.v (factory option rules written from the plugin sources; tied by the chain suite).",
     trusted_base=["Model/Chain.v (hand-written; tied by the chain suite)", "Model/Proxy.v chain_request (tied by the wire suite)"],
     assumptions=["option maps as yaml.v3 / Go deliver them (int, float64, string, list, map, nil)"],
+)
+
+PROPS["C18"] = dict(
+    props_file="Props/C18.v", gen=["ConfigGen"],
+    suites=[dict(suite="config", corr=["diff"], monitors=["mon_spec", "mon_docs", "mon_starts"], classifiers={}, nontrivial="nt_c18")],
+    rule="Config.Validate and config.LoadConfig on generated configurations (a minimal valid configuration with 0..4 sections replaced by "
+         "boundary-valued variants: ports 0/1/65535/65536, timeouts -1/0, every strategy / level / format spelling incl. wrong case, pool and "
+         "health-check relations at and around equality, breaker max_requests vs success_threshold, backends without name / address / with "
+         "negative weight, plugin chains with valid and invalid options) written as YAML (numbers as YAML integers); the shipped helios.yaml, "
+         "helios.docker.yaml and every YAML block of README.md and docs/*.md (fragments on a minimal base); the real binary started on a "
+         "sample incl. all documented files and made to answer a plain and a gzip-accepting request; non-trivial = documented file, "
+         "rejected configuration, plugin chain present or binary run; distinct = by case hash",
+    level_text="Theorem: Validate c = true <-> Spec c for every configuration value, where Validate and the record tree are REGENERATED from "
+               "config.go by go2coq on every run (so an edited comparison, enum or early return re-opens the proof) and Spec is the hand-written "
+               "statement of the documented constraints; the executable oracle spec_b is proved equal to both. Numeric plugin options are "
+               "accepted as int and float alike (factory model). Tie: the same configurations through the real Validate / LoadConfig / "
+               "BuildChain and the real binary's start-up.",
+    level_note="Trusted: Coq kernel, go2coq's statement/expression subset for config.go (its output is also compared with the real Validate on "
+               "every generated configuration), harness, yaml.v3 decoding, Model/Chain.v factory rules (tied by the chain suite).",
+    trusted_base=["go2coq config translator (Gen/ConfigGen.v)", "Model/ConfigSpec.v (hand-written specification of the documented constraints)"],
+    assumptions=["time.Duration overflow for absurd second counts out of scope", "TLS files' existence is checked at start-up, not by Validate"],
 )
 
 # properties not claimed, each with a one-line reason (kept current as checks are added)
